@@ -66,8 +66,10 @@ func createStructDesc(rv reflect.Value) (*structDesc, error) {
 	}
 	sd, err := newStructDescAndPrefetch(rt)
 	if err != nil {
+		rollbackPending()
 		return nil, err
 	}
+	commitPending()
 	sds.Set(abiType, sd)
 	if rv.Kind() == reflect.Ptr {
 		sds.Set(rvTypePtr(rv), sd) // *struct and struct share the same structDesc
@@ -76,6 +78,32 @@ func createStructDesc(rv reflect.Value) (*structDesc, error) {
 }
 
 var prefetchStructDescCache = map[reflect.Type]*structDesc{}
+
+// Descriptors cached and type nodes linked while the current createStructDesc
+// call is building. The type nodes (ttypes) are shared by all structs, so if
+// the build fails part-way they must be undone: otherwise a later build that
+// reaches one of them finds it already linked, skips the struct that failed,
+// and succeeds with a descriptor whose nested descriptors are incomplete.
+// Protected by sdsmu like the caches themselves.
+var (
+	pendingTypes []reflect.Type
+	pendingNodes []*tType
+)
+
+func commitPending() {
+	pendingTypes = pendingTypes[:0]
+	pendingNodes = pendingNodes[:0]
+}
+
+func rollbackPending() {
+	for _, t := range pendingTypes {
+		delete(prefetchStructDescCache, t)
+	}
+	for _, t := range pendingNodes {
+		t.Sd = nil
+	}
+	commitPending()
+}
 
 func newStructDescAndPrefetch(t reflect.Type) (*structDesc, error) {
 	if sd := prefetchStructDescCache[t]; sd != nil {
@@ -86,6 +114,7 @@ func newStructDescAndPrefetch(t reflect.Type) (*structDesc, error) {
 		return nil, err
 	}
 	prefetchStructDescCache[t] = sd
+	pendingTypes = append(pendingTypes, t)
 	if err := prefetchSubStructDesc(sd); err != nil {
 		delete(prefetchStructDescCache, t)
 		return nil, err
@@ -125,6 +154,7 @@ func fetchStructDesc(t *tType) error {
 		return err
 	}
 	t.Sd = sd
+	pendingNodes = append(pendingNodes, t)
 	return nil
 }
 
